@@ -379,4 +379,240 @@ theorem others_frame_run (L prog) (hd : Disjoint L prog) (t : Tid) (σ : List Ti
     simp only [run]
     rw [h2.1, h2.2]; exact h1
 
+/-! ## solo simulation (isolation) -/
+
+def solo (L : Layout) (prog : Tid → List Sec) (t : Tid) : Nat → St → St
+  | 0, s => s
+  | n + 1, s => solo L prog t n (step L prog t s)
+
+/-- `s` (concurrent world) and `s'` (world in which only `t` ever ran) look the same to thread `t` -/
+structure Agree (L : Layout) (prog : Tid → List Sec) (t : Tid) (s s' : St) : Prop where
+  th : s.th t = s'.th t
+  loc : ∀ f, Mentions L prog t f → s.text f = s'.text f ∧ s.patches f = s'.patches f
+  x : XInv s
+  x' : XInv s'
+  li : LInv prog s
+  li' : LInv prog s'
+  lp' : s'.lockP = none ∨ s'.lockP = some t
+  lm' : s'.lockM = none ∨ s'.lockM = some t
+
+theorem tr_th_other {L prog t s s'} (tr : Tr L prog t s s') (v : Tid) (hv : v ≠ t) : s'.th v = s.th v := by
+  cases tr <;> first | rfl | (simp only [th_setTh, hv, if_false, execW_th, execT_th, logAcc_th])
+
+theorem agree_other {L prog t u s s'} (hd : Disjoint L prog) (hu : u ≠ t) (A : Agree L prog t s s') :
+    Agree L prog t (step L prog u s) s' := by
+  have tr := step_tr L prog u s
+  refine ⟨?_, ?_, XInv_tr A.x tr, A.x', LInv_tr A.li tr, A.li', A.lp', A.lm'⟩
+  · rw [tr_th_other tr t (Ne.symm hu)]; exact A.th
+  · intro f hf
+    have h := frame_tr tr f (fun hw => hd t u f (Ne.symm hu) hw hf)
+    rw [h.1, h.2]; exact A.loc f hf
+
+theorem mentions_of_sec {L : Layout} {prog : Tid → List Sec} {t : Tid} {i : Nat} {sec : Sec} (h : (prog t)[i]? = some sec) (f : Loc) (hf : f ∈ mentionsOf L sec) :
+    Mentions L prog t f := ⟨sec, List.mem_of_getElem? h, hf⟩
+
+theorem lock_tr {L prog t s s1} (tr : Tr L prog t s s1) :
+    ((s.lockP = none ∨ s.lockP = some t) → (s1.lockP = none ∨ s1.lockP = some t)) ∧
+    ((s.lockM = none ∨ s.lockM = some t) → (s1.lockM = none ∨ s1.lockM = some t)) := by
+  cases tr <;> simp [execW_lockP, execW_lockM, execT_lockP, execT_lockM]
+
+def LocAgree (P : Loc → Prop) (s s' : St) : Prop := ∀ f, P f → s.text f = s'.text f ∧ s.patches f = s'.patches f
+
+theorem wcond_congr {P : Loc → Prop} {s s' : St} (h : LocAgree P s s') (wk : WKind) (hp : ∀ f, wk = .restore f → P f) (t) :
+    wcond (logAcc s t .patches false) wk = wcond (logAcc s' t .patches false) wk := by
+  cases wk with
+  | restore f => simp only [wcond, logAcc_patches]; rw [(h f (hp f rfl)).2]
+  | _ => rfl
+
+theorem execW_agree {P : Loc → Prop} {L : Layout} {s s' : St} (h : LocAgree P s s') (t) (wk : WKind) (ws : WStep)
+    (hp : ∀ f, (wk = .restore f ∨ wk = .jump f) → P f) : LocAgree P (execW L t wk ws s) (execW L t wk ws s') := by
+  intro g hg
+  have hg' := h g hg
+  cases ws with
+  | protW pg => exact hg'
+  | protX pg => exact hg'
+  | copy =>
+    cases wk with
+    | jump f =>
+      have hf := h f (hp f (Or.inr rfl))
+      simp only [execW, logAcc_patches, logAcc_text]
+      rw [hf.2]
+      cases s'.patches f with
+      | none => exact ⟨hg'.1, by simpa using hg'.2⟩
+      | some gd =>
+        refine ⟨?_, hg'.2⟩
+        by_cases e : g = f
+        · subst e; simp [upd]
+        · simp [upd, e]; exact hg'.1
+    | restore f =>
+      have hf := h f (hp f (Or.inl rfl))
+      simp only [execW, logAcc_patches, logAcc_text]
+      rw [hf.2]
+      cases s'.patches f with
+      | none => exact ⟨hg'.1, by simpa using hg'.2⟩
+      | some gd =>
+        refine ⟨?_, hg'.2⟩
+        by_cases e : g = f
+        · subst e; simp [upd]
+        · simp [upd, e]; exact hg'.1
+    | tramp f =>
+      simp only [execW, logAcc_patches, logAcc_text]
+      refine ⟨?_, hg'.2⟩
+      by_cases e : g = L.plh f
+      · subst e; simp [upd]
+      · simp [upd, e]; exact hg'.1
+
+theorem execT_agree {P : Loc → Prop} {s s' : St} (h : LocAgree P s s') (t) (mi : MI)
+    (hp : ∀ f, miLoc mi = some f → P f) : LocAgree P (execT t mi s) (execT t mi s') := by
+  intro g hg
+  have hg' := h g hg
+  cases mi with
+  | write k => exact hg'
+  | unregister f =>
+    simp only [execT, logAcc_patches, logAcc_text]
+    refine ⟨hg'.1, ?_⟩
+    by_cases e : g = f
+    · subst e; simp [upd]
+    · simp [upd, e]; exact hg'.2
+  | register f r =>
+    have hf := h f (hp f rfl)
+    simp only [execT, logAcc_patches, logAcc_text]
+    rw [hf.1]
+    refine ⟨hg'.1, ?_⟩
+    by_cases e : g = f
+    · subst e; simp [upd]
+    · simp [upd, e]; exact hg'.2
+  | setApplied f =>
+    have hf := h f (hp f rfl)
+    simp only [execT, logAcc_patches, logAcc_text]
+    rw [hf.2]
+    cases s'.patches f with
+    | none => exact ⟨hg'.1, by simpa using hg'.2⟩
+    | some gd =>
+      refine ⟨hg'.1, ?_⟩
+      by_cases e : g = f
+      · subst e; simp [upd]
+      · simp [upd, e]; exact hg'.2
+
+theorem mentions_sec {L : Layout} {prog : Tid → List Sec} {t : Tid} {i : Nat} {sec : Sec} (h : (prog t)[i]? = some sec) (f : Loc)
+    (hf : f ∈ mentionsOf L sec) : Mentions L prog t f := ⟨sec, List.mem_of_getElem? h, hf⟩
+
+theorem body_write_mentions (L : Layout) (sec : Sec) (k : Nat) (wk : WKind) (h : (bodyOf sec)[k]? = some (.write wk)) (f : Loc)
+    (hf : wk = .restore f ∨ wk = .jump f) : f ∈ mentionsOf L sec := by
+  have hm := List.mem_of_getElem? h
+  cases sec with
+  | replace f' r wo => cases wo <;> simp [bodyOf] at hm <;> rcases hf with rfl | rfl <;> simp_all [mentionsOf]
+  | apply f' => simp [bodyOf] at hm; rcases hf with rfl | rfl <;> simp_all [mentionsOf]
+  | unpatch f' => simp [bodyOf] at hm; rcases hf with rfl | rfl <;> simp_all [mentionsOf]
+  | call f' a => simp [bodyOf] at hm
+
+theorem writes_sub_mentions (L : Layout) (sec : Sec) (f : Loc) (h : f ∈ writesOf L sec) : f ∈ mentionsOf L sec := by
+  cases sec with
+  | replace f' r wo => cases wo <;> simp_all [writesOf, mentionsOf]
+  | apply f' => simp_all [writesOf, mentionsOf]
+  | unpatch f' => simp_all [writesOf, mentionsOf]
+  | call f' a => simp [writesOf] at h
+
+theorem agree_self {L prog t s s'} (A : Agree L prog t s s') :
+    step L prog t s = s ∨ Agree L prog t (step L prog t s) (step L prog t s') := by
+  have trs := step_tr L prog t s
+  have tr' := step_tr L prog t s'
+  have tr := trs
+  have hth := A.th
+  generalize hs1 : step L prog t s = s1 at tr
+  have fin : s.th t = s'.th t → (∀ f, Mentions L prog t f → (step L prog t s).text f = (step L prog t s').text f ∧
+      (step L prog t s).patches f = (step L prog t s').patches f) → (step L prog t s).th t = (step L prog t s').th t →
+      Agree L prog t (step L prog t s) (step L prog t s') := fun _ hl ht =>
+    ⟨ht, hl, XInv_tr A.x trs, XInv_tr A.x' tr', LInv_tr A.li trs, LInv_tr A.li' tr', (lock_tr tr').1 A.lp', (lock_tr tr').2 A.lm'⟩
+  cases tr with
+  | stutter => exact Or.inl rfl
+  | call f a h1 h2 =>
+    rw [← hs1]; right
+    have e : step L prog t s' = setTh { s' with calls := (t, (s'.th t).ip, callAt L s' f a) :: s'.calls } t { s'.th t with ip := (s'.th t).ip + 1 } := by
+      unfold step; simp only [← hth, h1, h2]
+    refine fin hth ?_ ?_
+    · rw [hs1, e]; exact A.loc
+    · rw [hs1, e]; simp [hth]
+  | acqP sec h1 h2 h3 h4 =>
+    rw [← hs1]; right
+    have hl : s'.lockP = none := by
+      rcases A.lp' with h | h
+      · exact h
+      · have := A.li'.mpc t h; rw [← hth, h2] at this; simp at this
+    have e : step L prog t s' = setTh { s' with lockP := some t } t { s'.th t with cur := some 0 } := by
+      unfold step; simp only [← hth, h1, h2]
+      cases sec <;> simp_all [Sec.isCall]
+    refine fin hth ?_ ?_
+    · rw [hs1, e]; exact A.loc
+    · rw [hs1, e]; simp [hth]
+  | relP sec k h1 h2 h3 =>
+    rw [← hs1]; right
+    have e : step L prog t s' = setTh { s' with lockP := none } t { ip := (s'.th t).ip + 1, cur := none, w := none } := by
+      unfold step; simp only [← hth, h1, h2, h3]
+    refine fin hth ?_ ?_
+    · rw [hs1, e]; exact A.loc
+    · rw [hs1, e]; simp [hth]
+  | wskip sec k wk h1 h2 h3 h4 h5 =>
+    rw [← hs1]; right
+    have hc := wcond_congr (P := Mentions L prog t) A.loc wk
+      (fun f hf => mentions_sec h1 f (body_write_mentions L sec k wk h3 f (Or.inl hf))) t
+    have e : step L prog t s' = setTh (logAcc s' t .patches false) t { s'.th t with cur := some (k + 1) } := by
+      unfold step; simp only [← hth, h1, h2, h3, h4, ← hc, h5]; simp
+    refine fin hth ?_ ?_
+    · rw [hs1, e]; exact A.loc
+    · rw [hs1, e]; simp [hth]
+  | acqM sec k wk h1 h2 h3 h4 h5 h6 =>
+    rw [← hs1]; right
+    have hc := wcond_congr (P := Mentions L prog t) A.loc wk
+      (fun f hf => mentions_sec h1 f (body_write_mentions L sec k wk h3 f (Or.inl hf))) t
+    have hl : s'.lockM = none := by
+      rcases A.lm' with h | h
+      · exact h
+      · have := A.li'.mmc t h; rw [← hth, h4] at this; simp at this
+    have e : step L prog t s' = setTh { logAcc s' t .patches false with lockM := some t } t { s'.th t with w := some 0 } := by
+      unfold step; simp only [← hth, h1, h2, h3, h4, ← hc, h5, hl]; simp
+    refine fin hth ?_ ?_
+    · rw [hs1, e]; exact A.loc
+    · rw [hs1, e]; simp [hth]
+  | relM sec k wk j h1 h2 h3 h4 h5 =>
+    rw [← hs1]; right
+    have e : step L prog t s' = setTh { s' with lockM := none } t { s'.th t with cur := some (k + 1), w := none } := by
+      unfold step; simp only [← hth, h1, h2, h3, h4, h5]
+    refine fin hth ?_ ?_
+    · rw [hs1, e]; exact A.loc
+    · rw [hs1, e]; simp [hth]
+  | wph sec k wk j ws h1 h2 h3 h4 h5 =>
+    rw [← hs1]; right
+    have e : step L prog t s' = setTh (execW L t wk ws s') t { s'.th t with w := some (j + 1) } := by
+      unfold step; simp only [← hth, h1, h2, h3, h4, h5]
+    refine fin hth ?_ ?_
+    · rw [hs1, e]
+      exact execW_agree (P := Mentions L prog t) A.loc t wk ws
+        (fun f hf => mentions_sec h1 f (body_write_mentions L sec k wk h3 f hf))
+    · rw [hs1, e]; simp [hth]
+  | tab sec k mi h1 h2 h3 h4 =>
+    rw [← hs1]; right
+    have e : step L prog t s' = setTh (execT t mi s') t { s'.th t with cur := some (k + 1) } := by
+      unfold step; simp only [← hth, h1, h2, h3]
+      cases mi <;> simp_all [MI.isWrite]
+    refine fin hth ?_ ?_
+    · rw [hs1, e]
+      exact execT_agree (P := Mentions L prog t) A.loc t mi
+        (fun f hf => mentions_sec h1 f (writes_sub_mentions L sec f (body_mi_loc L sec k mi f h3 hf)))
+    · rw [hs1, e]; simp [hth]
+
+/-- **solo simulation**: whatever the other threads do, thread `t`'s view evolves as in a run in which only `t` is scheduled -/
+theorem solo_sim (L prog) (hd : Disjoint L prog) (t : Tid) (σ : List Tid) (s s' : St) (A : Agree L prog t s s') :
+    ∃ n, Agree L prog t (run L prog σ s) (solo L prog t n s') := by
+  induction σ generalizing s s' with
+  | nil => exact ⟨0, A⟩
+  | cons u σ ih =>
+    by_cases hu : u = t
+    · subst hu
+      rcases agree_self A with h | h
+      · simp only [run, h]; exact ih s s' A
+      · obtain ⟨n, hn⟩ := ih _ _ h
+        exact ⟨n + 1, hn⟩
+    · exact ih _ s' (agree_other hd hu A)
+
 end Conc
